@@ -148,6 +148,14 @@ pub enum Op {
     ProtectRtcp(usize, Src),
     UnprotectRtcp(usize, Src),
     Snap(usize),
+    /// an independent sender (`ref3711`) holding session `.0`'s tx keys protects an RTP packet under ROC `.1`
+    ExtRtp(usize, u32, PktSpec),
+    /// … protects an RTCP packet with E flag `.1` and SRTCP index `.2`
+    ExtRtcp(usize, bool, u32, Vec<u8>),
+    /// … protects raw plaintext RTP bytes (lets the P bit disagree with the padding) under ROC `.1`
+    ExtRaw(usize, u32, Vec<u8>),
+    /// preset `(roc, last_seq, rtcp_index)` of an existing tx (`true`) / rx context of a session
+    SetState(usize, bool, u32, u32, Option<u16>, u32),
 }
 impl Op {
     pub fn text(&self) -> String {
@@ -159,6 +167,11 @@ impl Op {
             Op::ProtectRtcp(s, src) => format!("pc,{s},{}", src.text()),
             Op::UnprotectRtcp(s, src) => format!("uc,{s},{}", src.text()),
             Op::Snap(s) => format!("sn,{s}"),
+            Op::ExtRtp(s, roc, p) => format!("xr,{s},{roc},{}", p.text()),
+            Op::ExtRtcp(s, e, idx, b) => format!("xc,{s},{},{idx},{}", *e as u8, hex(b)),
+            Op::ExtRaw(s, roc, b) => format!("xp,{s},{roc},{}", hex(b)),
+            Op::SetState(s, tx, ssrc, roc, last, idx) => format!("st,{s},{},{ssrc},{roc},{},{idx}", if *tx { "t" } else { "r" },
+                last.map(|x| x.to_string()).unwrap_or("-".into())),
         }
     }
     pub fn parse(t: &str) -> Op {
@@ -172,6 +185,11 @@ impl Op {
             "pc" => Op::ProtectRtcp(n(1), Src::parse(&f[2..])),
             "uc" => Op::UnprotectRtcp(n(1), Src::parse(&f[2..])),
             "sn" => Op::Snap(n(1)),
+            "xr" => Op::ExtRtp(n(1), f[2].parse().unwrap(), PktSpec::parse(&f[3..])),
+            "xp" => Op::ExtRaw(n(1), f[2].parse().unwrap(), unhex(f[3])),
+            "xc" => Op::ExtRtcp(n(1), f[2] == "1", f[3].parse().unwrap(), unhex(f[4])),
+            "st" => Op::SetState(n(1), f[2] == "t", f[3].parse().unwrap(), f[4].parse().unwrap(),
+                if f[5] == "-" { None } else { Some(f[5].parse().unwrap()) }, f[6].parse().unwrap()),
             x => panic!("bad op {x}"),
         }
     }
@@ -221,11 +239,15 @@ pub struct Shadow { pub enc: RefCtx, pub dec: RefCtx }
 pub struct World {
     pub sess: Vec<SrtpSession>,
     pub prof: Vec<String>,
+    /// (tx master key, tx master salt, rx master key, rx master salt) per session
+    pub keys: Vec<(Vec<u8>, Vec<u8>, Vec<u8>, Vec<u8>)>,
     pub shadow: Vec<Option<Shadow>>,
     /// protect outputs (empty on failure) and, for RTP, the packet that was protected
     pub slots: Vec<Vec<u8>>,
     pub slot_pkt: Vec<Option<RtpPacket>>,
     pub slot_plain: Vec<Vec<u8>>,
+    /// whether the slot holds a protected RTCP (true) or RTP packet
+    pub slot_rtcp: Vec<bool>,
     pub three_way: bool,
     /// disagreements with the reference implementation: (signature, detail)
     pub interop: Vec<(String, String)>,
@@ -233,7 +255,7 @@ pub struct World {
 
 impl World {
     pub fn new(three_way: bool) -> Self {
-        World { sess: vec![], prof: vec![], shadow: vec![], slots: vec![], slot_pkt: vec![], slot_plain: vec![], three_way, interop: vec![] }
+        World { sess: vec![], prof: vec![], keys: vec![], shadow: vec![], slots: vec![], slot_pkt: vec![], slot_plain: vec![], slot_rtcp: vec![], three_way, interop: vec![] }
     }
     pub fn input(&self, src: &Src) -> Vec<u8> {
         match src { Src::Lit(b) => b.clone(), Src::Slot(k) => self.slots[*k].clone(), Src::Mutated(k, m) => m.apply(&self.slots[*k]) }
@@ -245,6 +267,7 @@ impl World {
                 let s = SrtpSession::new(profile_of(p), SrtpKeyingMaterial::new(a.clone(), b.clone()), SrtpKeyingMaterial::new(c.clone(), d.clone())).unwrap();
                 self.sess.push(s);
                 self.prof.push(p.clone());
+                self.keys.push((a.clone(), b.clone(), c.clone(), d.clone()));
                 let sh = if self.three_way { ref_profile_of(p).and_then(|rp| {
                     let enc = RefCtx::new(a, b, rp, None, None).ok()?;
                     let dec = RefCtx::new(c, d, rp, None, None).ok()?;
@@ -272,6 +295,7 @@ impl World {
                 self.slots.push(out);
                 self.slot_pkt.push(Some(pkt));
                 self.slot_plain.push(plain);
+                self.slot_rtcp.push(false);
                 res
             }
             Op::UnprotectRtp(i, src) => {
@@ -310,6 +334,7 @@ impl World {
                 self.slots.push(buf);
                 self.slot_pkt.push(None);
                 self.slot_plain.push(raw);
+                self.slot_rtcp.push(true);
                 res
             }
             Op::UnprotectRtcp(i, src) => {
@@ -328,6 +353,46 @@ impl World {
                 res
             }
             Op::Snap(i) => Res::Snap(self.sess[*i].verif_rx_snapshot(), self.sess[*i].verif_tx_snapshot()),
+            Op::ExtRtp(i, roc, spec) => {
+                let pkt = spec.packet();
+                let plain = pkt.marshal().unwrap_or_default();
+                let (mk, ms) = (&self.keys[*i].0, &self.keys[*i].1);
+                let usable = mk.len() >= 16 && ms.len() >= salt_len(&self.prof[*i]) && !plain.is_empty();
+                let out = if usable { super::ref3711::protect_rtp(&self.prof[*i], mk, ms, &plain, *roc) } else { vec![] };
+                let res = if usable { Res::Bytes(out.clone()) } else { Res::Err(if plain.is_empty() { "e:int" } else { "e:prof" }) };
+                self.slots.push(out);
+                self.slot_pkt.push(if usable { Some(pkt) } else { None });
+                self.slot_plain.push(plain);
+                self.slot_rtcp.push(false);
+                res
+            }
+            Op::ExtRaw(i, roc, plain) => {
+                let (mk, ms) = (&self.keys[*i].0, &self.keys[*i].1);
+                let parses = rustrtc::rtp::RtpHeader::parse(&mut &plain[..]).is_ok();
+                let usable = mk.len() >= 16 && ms.len() >= salt_len(&self.prof[*i]) && parses;
+                let out = if usable { super::ref3711::protect_rtp(&self.prof[*i], mk, ms, plain, *roc) } else { vec![] };
+                let res = if usable { Res::Bytes(out.clone()) } else { Res::Err("e:int") };
+                self.slots.push(out);
+                self.slot_pkt.push(None);
+                self.slot_plain.push(plain.clone());
+                self.slot_rtcp.push(false);
+                res
+            }
+            Op::ExtRtcp(i, e, idx, raw) => {
+                let (mk, ms) = (&self.keys[*i].0, &self.keys[*i].1);
+                let usable = mk.len() >= 16 && ms.len() >= salt_len(&self.prof[*i]) && raw.len() >= 8;
+                let out = if usable { super::ref3711::protect_rtcp(&self.prof[*i], mk, ms, raw, *idx, *e) } else { vec![] };
+                let res = if usable { Res::Bytes(out.clone()) } else { Res::Err(if raw.len() < 8 { "e:short" } else { "e:prof" }) };
+                self.slots.push(out);
+                self.slot_pkt.push(None);
+                self.slot_plain.push(raw.clone());
+                self.slot_rtcp.push(true);
+                res
+            }
+            Op::SetState(i, tx, ssrc, roc, last, idx) => {
+                let ok = self.sess[*i].verif_set_ctx_state(*tx, *ssrc, *roc, *last, *idx);
+                Res::Err(if ok { "1" } else { "0" })
+            }
         }
     }
 }
